@@ -234,7 +234,32 @@ var c09Corpus = &vlib.Check{
 	},
 }
 
-func init() { vlib.Register(c09Model, c09Corpus) }
+// sharedPieceCase: two URL blocks with identical children; in the transformed form both take them from one shared piece.
+func sharedPieceCase(r vlib.Rnd, mode string) *vlib.Case {
+	doc := mdl.Gen(r)
+	a, b, ok := mdl.Twin(r, doc)
+	if !ok {
+		return nil
+	}
+	tree := mdl.BuildTree(doc, mdl.TreeOpts{R: r, Plain: true})
+	lay := mdl.RandomLayout(r)
+	base := mdl.Render(tree, lay)
+	st, ok := mdl.ShareChildren(tree, fmt.Sprintf("B%d", a), fmt.Sprintf("B%d", b), mode)
+	if !ok {
+		return nil
+	}
+	sp := mdl.Render(st, lay)
+	return &vlib.Case{Project: renderedProject(base), Project2: renderedProject(sp), Params: map[string]any{"mode": mode}}
+}
+
+var c09Shared = &vlib.Check{
+	Prop: "C09", Name: "shared-piece", Quick: 1200, Thorough: 100000,
+	Oracle:   sameCatalogOracle("c09", "split"),
+	Gen:      func(t *rapid.T) *vlib.Case { return sharedPieceCase(vlib.RapidRnd{T: t}, "include") },
+	Classify: func(c *vlib.Case) (bool, []string) { return true, []string{"piece-included-twice"} },
+}
+
+func init() { vlib.Register(c09Model, c09Corpus, c09Shared) }
 
 func TestC09(t *testing.T) {
 	if vlib.Shard() == 0 {
@@ -256,4 +281,5 @@ func TestC09(t *testing.T) {
 		})
 	}
 	t.Run("model-split", c09Model.Run)
+	t.Run("shared-piece", c09Shared.Run)
 }
